@@ -48,6 +48,8 @@ PROGRAMS = {
     'set||flush': dict(names=[['set'], ['flush']]),
     'get||flush': dict(names=[['get'], ['flush']], stale=True),
     'delete||set': dict(names=[['delete'], ['set']]),
+    'cas-set||set': dict(names=[['set'], ['set']], free_cas=[(0, 0)], stale=True),
+    'cas-incr||set': dict(names=[['increment'], ['set']], free_cas=[(0, 0)]),
     'incr||append': dict(names=[['increment'], ['append']]),
     'set||get||delete': dict(names=[['set'], ['get'], ['delete']]),
     'flush||flush||set': dict(names=[['flush'], ['flush'], ['set']]),
@@ -89,7 +91,7 @@ def never_undercounted(progs, obs, final, st):
 
 
 POLICY_PROGRAMS = {
-    'evicting set||set': dict(names=[['set'], ['set']]),
+    'evicting set||set': dict(names=[['set'], ['set']], extra=[('accounted usage is not below the stored total afterwards (C15)', never_undercounted)]),
     'evicting set||get': dict(names=[['set'], ['get']], stale=True),
     'evicting set||flush': dict(names=[['set'], ['flush']]),
     'evicting set||delete': dict(names=[['set'], ['delete']], extra=[('accounted usage equals the stored total afterwards (C15)', final_accounting),
@@ -113,7 +115,12 @@ def run_item(ck, it, tier):
         single_client(ck, name)
     elif kind == 'plain':
         P = PROGRAMS[name]
-        explore_program(ck, P['names'], constraints=cas0, allow_stale=P.get('stale', False), check_lin=False, known_regions=False, budget_s=900)
+        free = set(P.get('free_cas', []))
+
+        def cons(progs, st, free=free):
+            # request CAS 0 except where the program says otherwise (conditional stores take other paths: retry loops, counter updates)
+            return [inp.cas == 0 for t, p in enumerate(progs) for i, (_, inp) in enumerate(p) if (t, i) not in free]
+        explore_program(ck, P['names'], constraints=cons, allow_stale=P.get('stale', False), check_lin=False, known_regions=False, budget_s=900)
     else:
         prefixes = None
         if isinstance(name, tuple):
@@ -193,7 +200,7 @@ def run(tier, seed, replay_path=None):
     singles = [('single', (pol, cmd)) for pol in (None, 'random') for cmd in CMDS]
     items = [('plain', n) for n in PROGRAMS] + [('policy', n) for n in POLICY_PROGRAMS]
     if tier == 'quick':
-        items = [('plain', n) for n in ('set||set', 'set||flush', 'get||flush', 'delete||set')] + \
+        items = [('plain', n) for n in ('set||set', 'set||flush', 'get||flush', 'delete||set', 'cas-set||set')] + \
                 [('policy', n) for n in ('evicting set||set', 'evicting set||get', 'evicting set||flush', 'evicting set||delete')]
     ck.bounds.update({'single client': 'every command, both store variants, 2 keys, arbitrary state', 'programs': [n for _, n in items],
                       'eviction sweep': 'unwound <= 8 times', 'granularity': 'calls into DashMap / atomics'})
